@@ -60,6 +60,22 @@ def none_excluded(facts, target_text) -> bool:
     return False
 
 
+def json_line_writers(ctx):
+    """The methods of JsonfileWriter that put a line on the file: the private `_write` where it exists, otherwise (the helper folded into
+    its two callers) every method that calls self.fp.write. At least one must exist."""
+    prog = ctx.prog
+    cls = ctx.anchor_cls("flow.record.adapter.jsonfile.JsonfileWriter")
+    meths = prog.methods_of(cls)
+    if "_write" in meths:
+        ctx.loc(meths["_write"])
+        return [meths["_write"]]
+    out = [m for m in meths.values() if any(isinstance(c.func, ast.Attribute) and c.func.attr == "write" and norm(c.func.value) == "self.fp" for c in calls_in(m))]
+    if not out:
+        raise AnalysisError("JsonfileWriter: no method writes a line to self.fp")
+    for m in out:
+        ctx.loc(m)
+    return out
+
 def run(ctx):
     from ..core import isinstance_alternatives
 
@@ -240,23 +256,23 @@ def run(ctx):
     # ------------------------------------------------------------------ R14.3 line discipline
     ctx.rule("R14.3", "writer: fp.write(packer.pack(obj) + '\\n'); dumps without newline separators; descriptor lines only from the handler registered under "
                       "`descriptors`; type markers only under pack_descriptors")
-    wr = ctx.anchor_func("flow.record.adapter.jsonfile.JsonfileWriter._write")
-    writes = [c for c in calls_in(wr) if isinstance(c.func, ast.Attribute) and c.func.attr == "write" and norm(c.func.value) == "self.fp"]
-    ok = False
-    if len(writes) == 1 and isinstance(writes[0].args[0], ast.BinOp) and isinstance(writes[0].args[0].op, ast.Add):
-        a = writes[0].args[0]
-        try:
-            ok = prog.fold(jf, a.right) == "\n"
-        except NotConst:
-            ok = False
-        src = a.left
-        if isinstance(src, ast.Name):
-            for st in walk_no_nested(wr):
-                if isinstance(st, ast.Assign) and norm(st.targets[0]) == src.id:
-                    src = st.value
-        ok = ok and isinstance(src, ast.Call) and norm(src.func) == "self.packer.pack"
-    ctx.check(ok, "R14.3", "JsonfileWriter._write:line", "a record is not written as exactly packer.pack(obj) followed by one newline", wr, "fp.write(pack(obj) + '\\n')",
-              key="R14.3:JsonfileWriter._write:line")
+    for wr in json_line_writers(ctx):
+        writes = [c for c in calls_in(wr) if isinstance(c.func, ast.Attribute) and c.func.attr == "write" and norm(c.func.value) == "self.fp"]
+        ok = False
+        if len(writes) == 1 and isinstance(writes[0].args[0], ast.BinOp) and isinstance(writes[0].args[0].op, ast.Add):
+            a = writes[0].args[0]
+            try:
+                ok = prog.fold(jf, a.right) == "\n"
+            except NotConst:
+                ok = False
+            src = a.left
+            if isinstance(src, ast.Name):
+                for st in walk_no_nested(wr):
+                    if isinstance(st, ast.Assign) and norm(st.targets[0]) == src.id:
+                        src = st.value
+            ok = ok and isinstance(src, ast.Call) and norm(src.func) == "self.packer.pack" and [norm(x) for x in src.args] == func_params(wr)[1:2]
+        ctx.check(ok, "R14.3", f"JsonfileWriter.{wr.name}:line", "a record is not written as exactly packer.pack(obj) followed by one newline", wr, "fp.write(pack(obj) + '\\n')",
+                  key=f"R14.3:JsonfileWriter.{wr.name}:line")
     pk = ctx.anchor_func("flow.record.jsonpacker.JsonRecordPacker.pack")
     dumps = [c for c in calls_in(pk) if getattr(prog.resolve_expr(jm, c.func), "name", "") == "json.dumps"]
     ok = len(dumps) == 1 and get_kw(dumps[0], "separators") is None and norm(get_kw(dumps[0], "indent") or ast.Constant(None)) in ("self.indent", "None") \
